@@ -779,7 +779,10 @@ class DirectoryRecord:
                 mid = (lo + hi) // 2
                 rr = self.rr_children[mid].rock_ridge
                 if rr is not None:
-                    if rr.name() < child.rock_ridge.name():
+                    # Records with an equal name are the further extents of a
+                    # multi-extent file; they have to stay behind the first one
+                    # so that a lookup by Rock Ridge name finds the whole file.
+                    if rr.name() <= child.rock_ridge.name():
                         lo = mid + 1
                     else:
                         hi = mid
